@@ -1110,3 +1110,74 @@ def vec_comp(v, k):
 
 def vec_isnan(v):
     return vec_fns()[0](v)
+
+
+# ----------------------------------------------------------------------------------
+# canonical templates: an expression up to the names of its free constants
+# ----------------------------------------------------------------------------------
+
+_COMM = {z3.Z3_OP_ADD, z3.Z3_OP_MUL, z3.Z3_OP_AND, z3.Z3_OP_OR, z3.Z3_OP_EQ, z3.Z3_OP_DISTINCT}
+
+
+def template_of(exprs, bound_ids=(), sorts=None):
+    """(key, free): `free` lists the uninterpreted constants of `exprs` (Int/Real/Bool, not bound) in a canonical order
+    that does not depend on their names or on the argument order of commutative operators; `key` is the text of the
+    expressions with those constants replaced by numbered holes."""
+    sorts = sorts or (z3.IntSort(), z3.RealSort(), z3.BoolSort())
+    bound_ids = set(bound_ids)
+    hcache = {}
+
+    def is_free(x):
+        return z3.is_const(x) and x.decl().kind() == z3.Z3_OP_UNINTERPRETED and x.get_id() not in bound_ids \
+            and any(x.sort() == s_ for s_ in sorts)
+
+    def h(x):
+        i = x.get_id()
+        if i in hcache:
+            return hcache[i]
+        if is_free(x):
+            r = "F:" + str(x.sort())
+        elif x.num_args() == 0:
+            r = x.sexpr()
+        else:
+            ch = [h(c_) for c_ in x.children()]
+            if x.decl().kind() in _COMM:
+                ch = sorted(ch)
+            r = "(" + x.decl().name() + " " + " ".join(ch) + ")"
+        hcache[i] = r
+        return r
+    free, seen = [], set()
+
+    def visit(x):
+        if is_free(x):
+            if x.get_id() not in seen:
+                seen.add(x.get_id())
+                free.append(x)
+            return
+        ch = list(x.children())
+        if x.num_args() and x.decl().kind() in _COMM:
+            ch.sort(key=h)
+        for c_ in ch:
+            visit(c_)
+    for e in exprs:
+        visit(e)
+    names = {x.get_id(): f"?{j}" for j, x in enumerate(free)}
+    tcache = {}
+
+    def t(x):
+        i = x.get_id()
+        if i in tcache:
+            return tcache[i]
+        if i in names:
+            r = names[i]
+        elif x.num_args() == 0:
+            r = x.sexpr()
+        else:
+            ch = [t(c_) for c_ in x.children()]
+            if x.decl().kind() in _COMM:
+                ch = sorted(ch)
+            r = "(" + x.decl().name() + " " + " ".join(ch) + ")"
+        tcache[i] = r
+        return r
+    key = tuple(t(e) for e in exprs) + tuple(str(x.sort()) for x in free)
+    return key, free
